@@ -1,6 +1,7 @@
 CONSTANTS
   MaxOps = 3
   MaxNodes = 16
+  MaxHandles = 4
 INIT Init
 NEXT Next
 INVARIANTS Laws ArityIsSub EmitState
